@@ -256,7 +256,7 @@ def gen_pair(rng):
 
 
 def gen_binset(rng, nmax):
-    kind = rng.choice(['default', 'uniform', 'random', 'fine', 'coarse', 'outside', 'desc', 'nm', 'Hz'])
+    kind = rng.choice(['default', 'uniform', 'random', 'fine', 'coarse', 'outside', 'desc', 'nm', 'Hz', 'balanced', 'narrow'])
     if kind == 'default':
         return None, 'AA_number', kind
     n = rng.randint(2, nmax)
@@ -269,6 +269,26 @@ def gen_binset(rng, nmax):
     elif kind == 'fine':
         step = F(1, 8)
         b = [lo + i * step for i in range(n)]
+    elif kind == 'balanced':
+        # uneven spacings whose first spacing and end points are those of an even grid (s, s-d, s+d, s, ...)
+        n = max(n, 4)
+        s0 = O.dy(rng, 4, 200, 2)
+        gaps = [s0] * (n - 1)
+        for _ in range(rng.randint(1, 3)):
+            i, j = rng.sample(range(1, n - 1), 2) if n > 3 else (1, 2)
+            d = s0 * F(rng.randint(1, 7), 8)
+            gaps[i] += d
+            gaps[j] -= d
+        gaps = [g if g > 0 else s0 for g in gaps]
+        b = [lo]
+        for g in gaps:
+            b.append(b[-1] + g)
+    elif kind == 'narrow':
+        # bins 2^-6 .. 2^-10 Angstrom wide, unevenly: the whole set spans less than 1e-5 of the wavelength
+        w = F(2) ** -rng.randint(6, 10)
+        b = [lo]
+        for _ in range(n - 1):
+            b.append(b[-1] + w * rng.randint(1, 4))
     elif kind == 'coarse':
         b = [lo + i * 1500 for i in range(min(n, 5))]
     else:
